@@ -236,10 +236,18 @@ def step (op obs : String) : String :=
       let topBad := c.top && !(c.isRoot && c.len == c.L && c.woff == 0 && c.wbits.length == c.L)
       let rs := (c.ops.zip obss).map fun (o, ob) =>
         let m := modelObs v o
+        -- md5 is a one-way rendering: its predicate IS "equals the RFC-1321 digest of the value's
+        -- bytes", which is what the model computes from the same bits (Props.C05.render_of_tobits,
+        -- md5_of_string) — computed once, not twice, because inputs can be > 1 MiB
+        let isMd5 := match o.splitOn ":" with
+          | [k, "md5", _] => k == "fmt" || k == "rfmt8" || k == "rfmt1"
+          | _ => false
         let p : Except String Unit :=
           if topBad then .error "the top value is not the whole input"
           else if c.synth then (if ob.startsWith "err:" then .ok () else .error "synthetic value has bits")
           else if !inRange then (if ob.startsWith "err:" then .ok () else .error "range outside buffer but no error")
+          else if isMd5 && !c.ownCoord then
+            (if m == some ob then .ok () else .error "md5: not the digest of the value's bytes")
           else checkProp vb o ob
         (o, ob, m, p)
       let bad := rs.find? fun (_, _, m, _) => m.isNone
